@@ -2,12 +2,15 @@
 // Drives the REAL Graph.StartAll / Graph.ShutdownAll over chains of scripted components that
 // report statuses through the host they are given (during Start, at run time, during Shutdown)
 // and may fail to start / stop.  Case term (Coq): (2, (script, observed)) with
-//   script   : list (node, code)  100 Start begins | s<8 the node reports s | 101 Start returned nil |
-//              102 Start returned an error | 103 Shutdown begins | 104/105 Shutdown returned nil/error
-//   observed : list (node, status) events delivered to the status-change callback, in order
+//
+//	script   : list (node, code)  100 Start begins | s<8 the node reports s | 101 Start returned nil |
+//	           102 Start returned an error | 103 Shutdown begins | 104/105 Shutdown returned nil/error
+//	observed : list (node, status) events delivered to the status-change callback, in order
+//
 // Direct oracles: (a) every instance's events are a path of the documented diagram;
 // (b) the automatic OK after a successful Start is delivered only if the instance is still in Starting
-//     (and then it IS delivered).
+//
+//	(and then it IS delivered).
 package graph
 
 import (
@@ -49,14 +52,16 @@ type vC11Run struct {
 	// per node: status and number of delivered events when its Start returned nil (-1: did not)
 	atReturn  []int
 	lenReturn []int
+	// first event delivered for another instance than the node that reported (attribution oracle)
+	misattributed string
 }
 
 type vC11Node struct {
-	i                  int
-	run                *vC11Run
-	startRep, stopRep  []int
-	startErr, stopErr  bool
-	host               component.Host
+	i                 int
+	run               *vC11Run
+	startRep, stopRep []int
+	startErr, stopErr bool
+	host              component.Host
 }
 
 func (n *vC11Node) ID() int64 { return int64(n.i + 1) }
@@ -65,8 +70,15 @@ func (n *vC11Node) report(s int) {
 	if n.host == nil {
 		return
 	}
+	before := len(n.run.got)
 	componentstatus.ReportStatus(n.host, componentstatus.NewEvent(componentstatus.Status(s)))
 	n.run.script = append(n.run.script, [2]int{n.i, s})
+	// a report made by node i through the host IT was started with may only produce events of instance i
+	for _, e := range n.run.got[before:] {
+		if e[0] != n.i && n.run.misattributed == "" {
+			n.run.misattributed = fmt.Sprintf("node %d reported status %d through its own host; the event %d was delivered for instance %d", n.i, s, e[1], e[0])
+		}
+	}
 }
 
 func (n *vC11Node) Start(_ context.Context, h component.Host) error {
@@ -178,6 +190,10 @@ func TestVerifC11Graph(t *testing.T) {
 				break
 			}
 			st[e[0]] = e[1]
+		}
+		// (a') attribution
+		if run.misattributed != "" {
+			out.Oracle("status-attributed-to-wrong-instance", term, run.misattributed)
 		}
 		// (b) the automatic OK
 		for i := 0; i < nn; i++ {
